@@ -262,6 +262,10 @@ def canon_events(res):
             extra.append("norule:" + text.split('"')[1])
         elif kind == "error" and re.match(r"target (\S+) failed$", text):
             extra.append("failed32:" + text.split()[1])
+    # the override warning may be printed more than once for one file (the dependency
+    # rows are loaded before the walk, so a second visit does not see the first one's
+    # mark); its multiplicity is not part of any property
+    extra = [e for e in extra if not e.startswith("ovr:")] + sorted(set(e for e in extra if e.startswith("ovr:")))
     return evs, sorted(extra)
 
 
@@ -269,7 +273,8 @@ def split_model_events(s):
     """model 'ev=...' -> (run trace list, sorted others)"""
     evs = [e for e in s.split(",") if e]
     runs = [e for e in evs if e.startswith("run:")]
-    others = sorted(e for e in evs if not e.startswith("run:"))
+    others = [e for e in evs if not e.startswith("run:")]
+    others = sorted([e for e in others if not e.startswith("ovr:")] + list(set(e for e in others if e.startswith("ovr:"))))
     return runs, others
 
 
@@ -279,7 +284,7 @@ def run_real(bindir, line, tag="h"):
     out = []
     try:
         for t in parse_history(line):
-            if t[0] == "P":
+            if t[0] in ("P", "H"):
                 continue
             r, detail = pr.step(t)
             out.append((r, pr.digest(), detail))
@@ -311,7 +316,7 @@ def run_model(lines):
 
 def compare(line, real, model):
     """First disagreement between the real run and the model, or None."""
-    steps = [t for t in parse_history(line) if t[0] != "P"]
+    steps = [t for t in parse_history(line) if t[0] not in ("P", "H")]
     if len(real) != len(model):
         return {"step": -1, "what": "length", "real": len(real), "model": len(model)}
     for i, ((rr, rd, det), (mr, mev, md)) in enumerate(zip(real, model)):
@@ -355,11 +360,49 @@ def project_depth():
     return len([c for c in os.path.join(os.path.realpath(SCRATCH_ROOT), "e2e-x", "p").split("/") if c])
 
 
+def hint_names(detail):
+    """names in the order the implementation first mentioned them in its log records"""
+    out = []
+    for kind, text in (detail or {}).get("records", []):
+        n = None
+        if kind in ("do", "unchanged", "check"):
+            n = text
+        elif kind == "error":
+            m = re.match(r"target (\S+) failed$", text)
+            if m:
+                n = m.group(1)
+        if n and n not in out and " " not in n:
+            out.append(n)
+    return out
+
+
+def with_hints(line, real):
+    """Insert before every build command the out-of-band order observed in the real run."""
+    steps = [t for t in parse_history(line)]
+    out = []
+    k = 0
+    for t in steps:
+        if t[0] == "P":
+            out.append(" ".join(t))
+            continue
+        if t[0] == "H":
+            continue
+        if t[0] == "C" and t[1] in ("redo", "ifchange") and k < len(real):
+            h = hint_names(real[k][2])
+            if h:
+                out.append("H " + ",".join(h))
+        out.append(" ".join(t))
+        k += 1
+    return " ; ".join(out)
+
+
 def run_all(bindir, lines, workers=None):
-    """Run every history on both sides; returns (reals, models)."""
+    """Run every history on both sides; returns (reals, models).  The real
+    runs go first: the order in which out-of-band targets were built (a
+    HashSet order in the code) is observed and given to the model as hints."""
     lines = [l if l.startswith("P ") else "P %d ; %s" % (project_depth(), l) for l in lines]
-    models = run_model(lines)
     workers = workers or common.NCPU
     with ThreadPoolExecutor(max_workers=workers) as ex:
         reals = list(ex.map(lambda il: run_real(bindir, il[1], "h%d" % il[0]), enumerate(lines)))
+    models = run_model([with_hints(l, r) for l, r in zip(lines, reals)])
     return reals, models
